@@ -212,6 +212,7 @@ class C11(Check):
         "observers constructed at the initial state (before the first dispatch), no reset / unsubscribe in between; "
         "the composite is constructed after its components",
         "machine-level sums and counts (Duration, RemainingOperations) only on non-flexible instances",
+        "IsCompleted operation flags: no filter, or positive durations (the clock is only then monotone, C06)",
         "float32 exactness: all values < 2^24 (durations <= 10^4, <= 40 operations)",
     ]
     modelled_not_verified = [
@@ -454,7 +455,9 @@ class C11(Check):
                     fails.append(Failure("oracle", f"{KINDS[k]}:{FT[t]}", f"event #{i}: wrong length"))
                     continue
                 if t == 1 and flexible and k in (2, 5):
-                    continue
+                    continue            # machine-level sums / counts: non-flexible instances only
+                if k == 6 and t == 0 and case["filters"] and not sp[12]:
+                    continue            # sticky flags rest on a monotone clock: with a filter, positive durations only
                 if k == 1 and t > 0:
                     rel = unsch[t]
                 elif k == 4:
